@@ -619,9 +619,10 @@ def run_chained(job):
     orch = qo.QueueSemantivaOrchestrator(tr, stop_event=None, logger=make_logger(events, "master", _uniq[0]))
     stop = threading.Event()
     nw = int(job.get("workers", 2))
+    stops = [threading.Event() if job.get("mode") == "retire" else stop for _ in range(nw)]     # retire: every worker has its own stop event
     master = threading.Thread(target=orch.run_forever, daemon=True, name="c15-master")
     workers = [threading.Thread(target=wk.worker_loop, daemon=True, name="c15-worker-%d" % w,
-                                args=(w, tr, SequentialSemantivaExecutor(), stop, make_logger(events, "w%d" % w, _uniq[0]), 0.01))
+                                args=(w, tr, SequentialSemantivaExecutor(), stops[w], make_logger(events, "w%d" % w, _uniq[0]), 0.01))
                for w in range(nw)]
     for t in [master] + workers:
         t.start()
@@ -656,7 +657,11 @@ def run_chained(job):
         t_late = threading.Thread(target=lambda: late.append(enq(jobs[0])), daemon=True)
         deadline = time.time() + float(job.get("timeout_s", 8.0))
         started_late = False
+        retired = False
         while time.time() < deadline:
+            if job.get("mode") == "retire" and not retired and any(f.done() for f in first):
+                stops[-1].set()            # one worker leaves while jobs are in flight; the others keep serving
+                retired = True
             if not started_late and all(f.done() for f in first[:1]):
                 t_late.start()
                 started_late = True
@@ -675,7 +680,7 @@ def run_chained(job):
         for k, f in enumerate(first):
             r = res_of(f, k)
             if r == "pending":
-                problems.append(["C15:future-never-completes:chained-callbacks:first-stage", "job %d: Future still pending" % k])
+                problems.append(["C15:future-never-completes:%s:first-stage" % {"chain": "chained-callbacks", "passive": "plain-batch", "retire": "worker-retired-mid-batch"}.get(job.get("mode", "chain")), "job %d: Future still pending" % k])
             elif direct[k][0] == "done" and r != ["done", direct[k][1]]:
                 problems.append(["C15:wrong-result:chained-callbacks", "job %d: %s, direct execution %s" % (k, r, direct[k][:2])])
         if job.get("mode", "chain") == "chain":
@@ -696,6 +701,8 @@ def run_chained(job):
         except Exception:  # noqa
             pass
         stop.set()
+        for e in stops:
+            e.set()
     seen, out = set(), []
     for sig, what in problems:
         if sig not in seen:
